@@ -561,11 +561,18 @@ func judgeC10(ctx *core.Ctx, rep *core.Report, items []WorkItem, results map[int
 		rep.Note("%d inputs exceeded the allocation filter; the first 40 are profiled", len(suspicious))
 		suspicious = suspicious[:40]
 	}
-	for _, it := range suspicious {
+	confirmed := 0
+	for k, it := range suspicious {
+		if confirmed >= 6 {
+			// the verdict is settled; profiling the rest (a minute each when the object is really allocated) adds only repeats
+			rep.Note("%d further inputs over the allocation filter were not profiled after %d confirmed over-size objects", len(suspicious)-k, confirmed)
+			break
+		}
 		tmpRes := profileItem(ctx, "c10", it, rep)
 		rep.Count("inputs_profiled_for_allocation", 1)
 		for _, s := range tmpRes {
 			if s.Bytes >= 1<<31 {
+				confirmed++
 				fn := strings.TrimPrefix(s.Func, "github.com/foxglove/mcap/go/")
 				rep.Violate("alloc:"+fn, fmt.Sprintf("input %d (%s, %d bytes): a single object of %d bytes was allocated by %s (ceiling 2 GiB); stack %s", it.ID, it.Kind, len(it.Data), s.Bytes, s.Func, s.Stack),
 					map[string]any{"input_kind": it.Kind, "input_hex": core.Hex(it.Data), "id": it.ID})
